@@ -17,6 +17,7 @@ from ..sim.gateway import GatewaySim
 from ..vloop import virtual_world
 
 REACT = ("ok", "lost", "late", "dup", "stale", "err", "wrongchan", "wrongseq")
+# "disc": no acknowledgement, the server sends a DisconnectRequest 0.3 s later while the request is pending
 
 
 def cemi(i):
@@ -46,11 +47,12 @@ def project(ev):
     return out
 
 
-def run_plan(plan, auto_reconnect, nsend, concurrent=False, seed=0):
+def run_plan(plan, auto_reconnect, nsend, concurrent=False, connect_plan=(), seed=0):
     from xknx.exceptions import CommunicationError
 
     with virtual_world(seed) as loop:
-        sim = GatewaySim(loop, "udp", auto_reconnect=auto_reconnect, auto_reconnect_wait=1, tun_plan=plan)
+        sim = GatewaySim(loop, "udp", auto_reconnect=auto_reconnect, auto_reconnect_wait=1, tun_plan=plan,
+                         connect_plan=connect_plan)
 
         async def one(i):
             try:
@@ -71,7 +73,9 @@ def run_plan(plan, auto_reconnect, nsend, concurrent=False, seed=0):
                     if o == "err" and not auto_reconnect:
                         break
                     await asyncio.sleep(0.3)
-            await asyncio.sleep(2)
+            await asyncio.sleep(8 if connect_plan else 2)
+            if connect_plan:
+                await one(nsend)
             sim.quiesce()
 
         loop.run_until_complete(main())
@@ -91,19 +95,24 @@ def run(ck):
     for _ in range(120 if ck.tier == "quick" else 1500):
         n = rnd.randrange(4, 9)
         plans.append((rnd.choices(REACT, k=n), True, 4, rnd.random() < 0.7))
+    # the tunnel is lost while a request awaits its acknowledgement; reconnecting takes 1..3 attempts
+    for k, cp, tail in itertools.product(range(0, 4), (["ok"], ["ok", "lost"], ["ok", "lost", "lost"], ["ok", "err"]),
+                                         (["ok"], ["lost", "ok"], ["disc"])):
+        plans.append((["ok"] * k + ["disc"] + tail, True, k + 3, False, cp))
     plans.append(([], True, 300, False))  # wrap-around of the counter
     plans.append((["lost", "lost"] + ["ok"] * 280, True, 270, False))
+    plans = [p if len(p) == 5 else (*p, ()) for p in plans]
     traces = [run_plan(*p, seed=ck.seed) for p in plans]
     res = tlc.batch(ck, "io/TunSend_Trace", traces, min_per_shard=60)
     for idx, info in sorted(res.bad.items()):
-        plan, ar, ns, conc = plans[idx]
+        plan, ar, ns, conc, cp = plans[idx]
         t = traces[idx]
         l = info if isinstance(info, int) else 0
         ev = t[l - 1] if 0 < l <= len(t) else None
         evk = {k: v for k, v in (ev or {}).items() if k != "t"}
-        ck.violation({"plan": plan[:8], "auto_reconnect": ar, "concurrent": conc, "event": evk},
+        ck.violation({"plan": plan[:8], "auto_reconnect": ar, "concurrent": conc, "connect_plan": list(cp), "event": evk},
                      f"tunnel send trace rejected at event {l}: {ev} (plan={plan[:8]} auto_reconnect={ar} concurrent={conc})",
-                     {"plan": plan, "auto_reconnect": ar, "nsend": ns, "concurrent": conc, "trace": t[:200], "rejected_at": l})
+                     {"plan": plan, "auto_reconnect": ar, "nsend": ns, "concurrent": conc, "connect_plan": list(cp), "trace": t[:200], "rejected_at": l})
     muts = []
     for t in [t for i, t in enumerate(traces[:400]) if i not in res.bad]:
         ks = [k for k, e in enumerate(t) if e["ev"] == "rx_ack" and e["st"] == 0]
@@ -129,7 +138,7 @@ def replay(ck, path):
     import json
 
     d = json.loads(open(path).read())["replay"]
-    t = run_plan(d["plan"], d["auto_reconnect"], d["nsend"], d["concurrent"], ck.seed)
+    t = run_plan(d["plan"], d["auto_reconnect"], d["nsend"], d["concurrent"], d.get("connect_plan", ()), ck.seed)
     res = tlc.batch(ck, "io/TunSend_Trace", [t])
     l = res.bad.get(0)
     print("trace:", t[:60], "\nrejected at:", l, t[l - 1] if l else None)
